@@ -142,12 +142,13 @@ VISITED = set()      # qualified names of every function of the analysed package
 
 
 class Interp:
-    def __init__(self, repo, domain=None, order=None, max_depth=8):
+    def __init__(self, repo, domain=None, order=None, max_depth=32):
         self.repo = repo
         self.D = domain or nf.Domain()
         self.order = order            # callable(left Rat, op str, right Rat) -> bool|None
         self.max_depth = max_depth
         self.depth = 0
+        self.stack = []               # ids of the FunctionDefs being inlined (recursion guard)
         self.warnings = []
         self.calls = []               # inlined (qualname) trace
         self.native = dict(NATIVE)
@@ -229,7 +230,9 @@ class Interp:
 
     # ------------------------------------------------------------------
     def _bind(self, module, fn, args, kwargs, self_obj, owner, name):
-        if self.depth >= self.max_depth:
+        # the bound exists to stop runaway recursion only: extracting helpers makes call chains longer without
+        # changing behaviour, so the limit is on re-entering the same function, with a generous overall ceiling
+        if self.depth >= self.max_depth or self.stack.count(id(fn)) >= 6:
             raise Unsupported('inlining depth exceeded at %s' % (name or fn.name))
         names, defaults, vararg, kwarg = params(fn)
         env = {}
@@ -287,6 +290,7 @@ class Interp:
                 raise
             return r.raised
         self.depth += 1
+        self.stack.append(id(fn))
         self.calls.append(name or fn.name)
         VISITED.add('%s.%s' % (owner.qual if owner is not None else module.name, fn.name))
         try:
@@ -312,6 +316,7 @@ class Interp:
             return None
         finally:
             self.depth -= 1
+            self.stack.pop()
 
     # ---- abstract strings ------------------------------------------------
     def seg(self, v, spec=None):
@@ -427,6 +432,19 @@ class Interp:
                     piece = SegStr.lit(fill * (pad // 2)) + piece + fill * (pad - pad // 2)
                 return piece
             return self.seg(v, spec)
+
+    def construct(self, ci, args, kwargs, name=None):
+        """ClassName(*args, **kwargs): a new object initialised by the class's own __init__ (a Raised when the
+        constructor raises at top level)"""
+        self.n_objects += 1
+        o = Obj(name or '%s#%d' % (ci.name, self.n_objects), ci, closed=True)
+        got = self.repo.find_method(ci, '__init__', missing_ok=True)
+        if got:
+            r = self.call_function(got[0].module, got[1], args, kwargs, self_obj=o, owner=got[0],
+                                   name=got[0].qual + '.__init__')
+            if isinstance(r, Raised):
+                return r
+        return o
 
     def call_method(self, obj, mname, args, kwargs, after=None):
         if mname in obj.opaque_methods:
@@ -608,6 +626,13 @@ class Interp:
                 if res is None:
                     raise Unsupported('type() test against %s' % b.name)
                 return res if op == 'is' else not res
+            if isinstance(a, Obj) and isinstance(b, Obj):
+                # one model object per program object (copies make new ones)
+                res = a is b
+                return res if op == 'is' else not res
+            if getattr(a, 'sentinel', False) or getattr(b, 'sentinel', False):
+                # a bare object() is identical to nothing but itself
+                return op != 'is'
             # two symbolic/structured values: identity is not decidable in general
             raise Unsupported('identity test on symbolic values')
         if isinstance(a, SegStr) or isinstance(b, SegStr) or \
@@ -884,6 +909,14 @@ class Frame:
                 names = []
                 if h.type is None:
                     names = None
+                elif isinstance(h.type, ast.Name) and h.type.id in self.env:
+                    # except <variable>: the exception classes were handed over as a value
+                    hv = self.env[h.type.id]
+                    hv = hv.items if isinstance(hv, ListV) else [hv]
+                    if not all(isinstance(x, Builtin) for x in hv):
+                        raise Unsupported('except clause with a computed exception specification', h,
+                                          self.module.relpath)
+                    names = [x.name for x in hv]
                 elif isinstance(h.type, ast.Tuple):
                     names = [ast.unparse(e) for e in h.type.elts]
                 else:
@@ -1536,7 +1569,12 @@ class Frame:
                 return self.I.module_globals[key]
             if isinstance(node, ast.Dict):
                 return TableRef(m, node)
-            return Frame(self.I, m, {}, None, None).ev(node)
+            # any other module-level value is created once when the module is imported (a sentinel object() keeps
+            # its identity)
+            key = (m.name, id(node))
+            if key not in self.I.module_globals:
+                self.I.module_globals[key] = Frame(self.I, m, {}, None, None).ev(node)
+            return self.I.module_globals[key]
         return r
 
     # ---- calls -----------------------------------------------------------
@@ -1629,13 +1667,7 @@ class Frame:
         if isinstance(fv, ClassInfo) and fv.qual in I.opaque_classes:
             return I.opaque_classes[fv.qual](I, self, args, kwargs)
         if isinstance(fv, ClassInfo):
-            I.n_objects += 1
-            o = Obj('%s#%d' % (fv.name, I.n_objects), fv, closed=True)
-            got = I.repo.find_method(fv, '__init__', missing_ok=True)
-            if got:
-                I.call_function(got[0].module, got[1], args, kwargs, self_obj=o, owner=got[0],
-                                name=got[0].qual + '.__init__')
-            return o
+            return I.construct(fv, args, kwargs)
         if isinstance(fv, Builtin):
             return builtin_call(I, self, fv.name, args, kwargs, n)
         if isinstance(fv, NativeRef):
@@ -2117,6 +2149,10 @@ def builtin_call(I, fr, name, args, kwargs, n):
         return d
     if name in BUILTIN_EXC:
         return Raised(name, n)
+    if name == 'object' and not args and not kwargs:
+        o = Obj('object()', closed=True)
+        o.sentinel = True
+        return o
     raise Unsupported('builtin %s' % name, n)
 
 
@@ -2429,6 +2465,11 @@ def _np_array(I, fr, args, kwargs, n):
         # list of Elem rows -> Elem of ListV row (2-D array with unknown axis 0)
         r = ListV(list(v.items))
         r.is_array = True
+        tag = _dtype_tag(_arg(args, kwargs, 1, 'dtype', None))
+        if tag is not None:
+            r.dtype = tag
+        elif getattr(v, 'dtype', None) is not None:
+            r.dtype = v.dtype
         return r
     return v
 
@@ -3335,6 +3376,7 @@ NATIVE = {
     'numpy.array': _np_array,
     'numpy.asarray': _np_array,
     'numpy.squeeze': _np_squeeze,
+    'numpy.float64': _identity, 'numpy.double': _identity, 'numpy.float_': _identity,
     'numpy.ones_like': _np_like(1),
     'numpy.zeros_like': _np_like(0),
     'numpy.zeros': _np_zeros(0),
@@ -3411,6 +3453,13 @@ GLOBAL_ATTRS = {
     'numpy.pi': lambda I: I.D.sym('pi'),
     'numpy.inf': lambda I: I.D.sym('INF'),
     'numpy.double': lambda I: 'np.double',
+    'numpy.float64': lambda I: 'np.float64',
+    'numpy.float_': lambda I: 'np.float_',
+    'numpy.int64': lambda I: 'np.int64',
+    'numpy.int32': lambda I: 'np.int32',
+    'numpy.int_': lambda I: 'np.int_',
+    'numpy.intp': lambda I: 'np.intp',
+    'numpy.bool_': lambda I: 'np.bool_',
     'pmutt.constants.Na': lambda I: I.D.sym('Na'),
 }
 
